@@ -141,11 +141,23 @@ package gomavlib
 //@   modifies ghost:log
 
 //@ func (*Channel).initialize
-//@   requires ch != nil
-//@   ensures  err == nil ==> ch.done != nil && ch.chWrite != nil && ch.ctx != nil
-//@   modifies *ch
-//@   trusted
-//@   assumes  Channel.initialize allocates the channel's queues; its plumbing of node options into reader/writer (C06/C09) is not verified here
+//@   ghostlog gomavlib.randomByte
+//@   requires ch != nil && ch.node != nil && ch.rwc != nil
+//@   ensures  [queues-allocated] err == nil ==> ch.done != nil && ch.chWrite != nil && ch.ctx != nil
+//@   ensures  [reader-plumbing] err == nil ==> ch.frameWriter != nil && ch.frameWriter.Reader != nil && ch.frameWriter.Reader.BufByteReader != nil &&
+//@              ch.frameWriter.Reader.InKey == ch.node.InKey && ch.frameWriter.Reader.DialectRW == ch.node.dialectRW
+//@   ensures  [writer-plumbing] err == nil ==> ch.frameWriter.Writer != nil && frame.SpecWriterReady(ch.frameWriter.Writer) &&
+//@              frame.SpecWriterDialect(ch.frameWriter.Writer) == ch.node.dialectRW && ch.streamWriter != nil &&
+//@              ch.streamWriter.FrameWriter == ch.frameWriter.Writer
+//@   ensures  [origin-identity] err == nil ==> ch.streamWriter.SystemID == ch.node.OutSystemID && ch.node.OutSystemID >= 1 &&
+//@              (ch.node.OutComponentID >= 1 ==> ch.streamWriter.ComponentID == ch.node.OutComponentID) &&
+//@              (ch.node.OutComponentID < 1 ==> ch.streamWriter.ComponentID == 1) &&
+//@              ch.streamWriter.Key == ch.node.OutKey &&
+//@              (ch.node.OutVersion == V2 ==> ch.streamWriter.Version == streamwriter.V2) &&
+//@              (ch.node.OutVersion != V2 ==> ch.streamWriter.Version == streamwriter.V1)
+//@   ensures  [one-link-id-per-channel] err == nil ==> logLen() >= 1 && logCallee(0, "gomavlib.randomByte") && ch.streamWriter.SignatureLinkID == byte(logRetInt(0, 0))
+//@   ensures  [bad-config-refused] ch.node.OutSystemID < 1 || (ch.node.OutKey != nil && ch.node.OutVersion != V2) ==> err != nil
+//@   modifies *ch, ghost:log
 
 //@ func (*channelProvider).run
 //@   ghostlog (*gomavlib.Node).newChannel, gomavlib.Endpoint.oneChannelAtAtime
@@ -254,3 +266,23 @@ package gomavlib
 //@   ensures  [signature-validates] err == nil && n.OutKey != nil && frame.SpecIsV2(fr) ==> frame.SpecSignatureOK(fr, n.OutKey)
 //@   ensures  [signed-flag-set-when-signing] err == nil && n.OutKey != nil && frame.SpecIsV2(fr) ==> frame.SpecSigFieldOK(fr) && frame.SpecIsSigned(fr)
 //@   modifies *fr
+
+// ---------------------------------------------------------------- node configuration (C09, C06)
+
+//@ func (*Node).Initialize
+//@   ghostlog gomavlib.EndpointConf.init, (*gomavlib.channelProvider).initialize, (*gomavlib.channelProvider).start, (*gomavlib.channelProvider).close, (*gomavlib.nodeHeartbeat).initialize, (*gomavlib.nodeStreamRequest).initialize, (*gomavlib.Node).Initialize$1, (*dialect.ReadWriter).Initialize
+//@   requires n != nil
+//@   ensures  [bad-configuration-refused] len(old(n.Endpoints)) == 0 || old(n.OutVersion) == 0 || old(n.OutSystemID) < 1 ||
+//@              (old(n.OutKey) != nil && old(n.OutVersion) != V2) ==> err != nil
+//@   ensures  [component-id-defaults-to-1] err == nil ==> (old(n.OutComponentID) < 1 ==> n.OutComponentID == 1) &&
+//@              (old(n.OutComponentID) >= 1 ==> n.OutComponentID == old(n.OutComponentID))
+//@   ensures  [identity-and-keys-kept] err == nil ==> n.OutSystemID == old(n.OutSystemID) && n.OutVersion == old(n.OutVersion) &&
+//@              n.OutKey == old(n.OutKey) && n.InKey == old(n.InKey)
+//@   ensures  [dialect-codec-built-from-the-dialect] err == nil ==> ((n.dialectRW != nil) == (old(n.Dialect) != nil))
+//@   canary   err != nil
+//@   canary   err == nil
+//@   modifies *n, ghost:log
+//@   loop 0 bind i int = rangeindex
+//@   loop 0 invariant -1 <= i && i < len(n.Endpoints) && n.channelProviders != nil
+//@   loop 0 modifies *n.channelProviders
+//@   loop 1 invariant true
